@@ -3,6 +3,7 @@ package checks
 import (
 	"fmt"
 	"math/rand"
+	"os/exec"
 	"reflect"
 	"sort"
 	"strings"
@@ -70,6 +71,7 @@ type ScenarioResult struct {
 	Bugs          int
 	IdentityPulls int
 	PairChecks    int // same operations under different heads on two replicas: convergence compared mid-schedule
+	ListingChecks int // listings compared with stock git's view of refs/bugs
 }
 
 type engine struct {
@@ -330,6 +332,8 @@ func (e *engine) checkPull(r *world.Replica, remote string, before, rem, after r
 		if res.Status == entity.MergeStatusNew || res.Status == entity.MergeStatusUpdated {
 			if b, ok := res.Entity.(*bug.Bug); !ok || b == nil {
 				e.find("pull", "bug-result-entity-missing", fmt.Sprintf("%s bug %s: %s result carries no *bug.Bug", tag, id.Human(), got))
+			} else if b.NeedCommit() {
+				e.find("pull", "bug-result-entity-has-uncommitted-operations", fmt.Sprintf("%s bug %s: the bug handed back by the merge (%s) reports NeedCommit()", tag, id.Human(), got))
 			} else if !reflect.DeepEqual(world.OpIds(b), as.Ordered) {
 				e.find("pull", "bug-result-entity-stale:"+pos, fmt.Sprintf("%s bug %s (%s): entity handed back has %d operations, a fresh read has %d", tag, id.Human(), pos, len(world.OpIds(b)), len(as.Ordered)))
 			}
@@ -401,6 +405,8 @@ func (e *engine) checkPull(r *world.Replica, remote string, before, rem, after r
 		if has && (res.Status == entity.MergeStatusNew || res.Status == entity.MergeStatusUpdated) {
 			if i, ok := res.Entity.(*identity.Identity); !ok || i == nil {
 				e.find("pull", "identity-result-entity-missing", fmt.Sprintf("%s identity %s: %s result carries no identity", tag, id.Human(), got))
+			} else if i.NeedCommit() {
+				e.find("pull", "identity-result-entity-has-uncommitted-versions", fmt.Sprintf("%s identity %s: the identity handed back by the merge (%s) reports NeedCommit(): committing it would write the pulled versions a second time", tag, id.Human(), got))
 			} else if fresh, err := identity.ReadLocal(r.Repo, id); err == nil {
 				if world.JSON(world.RenderIdentity(i)) != world.JSON(world.RenderIdentity(fresh)) {
 					e.find("pull", "identity-result-entity-stale", fmt.Sprintf("%s identity %s: entity handed back differs from a fresh read", tag, id.Human()))
@@ -569,6 +575,11 @@ func RunScenario(sc Scenario) (res *ScenarioResult) {
 			e.pull(r, remote, true, false)
 		case "merge":
 			e.pull(r, remote, false, true)
+		case "packrefs":
+			// what `git gc` does to the refs of a repository that is in use
+			if out, err := exec.Command("git", "-C", r.Dir, "pack-refs", "--all").CombinedOutput(); err != nil {
+				res.ActionErrors = append(res.ActionErrors, "packrefs: "+strings.TrimSpace(string(out)))
+			}
 		case "jump":
 			cur := uint64(0)
 			if clocks, err := r.Repo.AllClocks(); err == nil {
@@ -637,7 +648,35 @@ func (e *engine) rawSets() []map[string]string {
 }
 
 // syncAndCompare synchronises to quiescence and runs the C01 oracle.
+// listingMonitor: what a replica lists (bug.ReadAll, as `git bug` does) must be every bug stock git sees under refs/bugs.
+func (e *engine) listingMonitor(when string) {
+	for _, r := range e.w.Replicas {
+		out, err := exec.Command("git", "-C", r.Dir, "for-each-ref", "--format=%(refname)", "refs/bugs/").Output()
+		if err != nil {
+			continue
+		}
+		want := map[string]bool{}
+		for _, l := range strings.Fields(string(out)) {
+			want[strings.TrimPrefix(l, "refs/bugs/")] = true
+		}
+		got := map[string]bool{}
+		for se := range bug.ReadAll(r.Repo) {
+			if se.Err == nil {
+				got[se.Entity.Id().String()] = true
+			}
+		}
+		e.res.ListingChecks++
+		for _, id := range world.SortedKeys(want) {
+			if !got[id] {
+				e.find("converge", "replica-does-not-list-a-bug-it-holds", fmt.Sprintf("%s %s: stock git shows refs/bugs/%s but bug.ReadAll lists %d of the %d bugs without it", when, r.Name, short(id), len(got), len(want)))
+				return
+			}
+		}
+	}
+}
+
 func (e *engine) syncAndCompare() {
+	defer e.listingMonitor("after the final synchronisation:")
 	for round := 1; round <= 6; round++ {
 		e.res.SyncRounds = round
 		for _, r := range e.w.Replicas {
@@ -836,6 +875,10 @@ func TargetedScenario(a, b int, peers bool, authors int, variant int, rng *rand.
 		} else {
 			acts = append(acts, Action{Op: "push", R: 0}, Action{Op: "pull", R: 1})
 		}
+	case 9: // refs packed (git gc) on a replica that then receives updates: packed and loose refs side by side
+		acts = append([]Action{{Op: "new", R: 0}, {Op: "new", R: 0}, {Op: "push", R: 0}, {Op: "pull", R: 1}, {Op: "packrefs", R: 1}, {Op: "packrefs", R: 0}}, acts[3:]...)
+		acts = append(acts, Action{Op: "push", R: 0}, Action{Op: "pull", R: 1}, Action{Op: "push", R: 1}, Action{Op: "pull", R: 0},
+			Action{Op: "new", R: 1}, Action{Op: "packrefs", R: 1}, Action{Op: "edit", R: 1, Bug: 1, Specs: randSpecs(rng, authors, 2)})
 	case 6: // the merging replica's clock is far ahead (merge commits may jump, ordinary commits may not)
 		acts = append(acts, Action{Op: "jump", R: 1}, Action{Op: "push", R: 0}, Action{Op: "pull", R: 1}, Action{Op: "push", R: 1}, Action{Op: "pull", R: 0})
 	case 7, 8: // the same identity gets new versions on both replicas, more on one side: the pull must refuse and keep the local chain
